@@ -99,6 +99,11 @@ def run(ctx):
                                 fids.append(PFX + "strict-write-spec-violation-as-w002")
                             if any(x[0] == "multi" for x in want):
                                 fids.append(PFX + "strict-write-multiword")
+                    if name == "octave_write(lenient).corrections" and isinstance(got, list):
+                        import re as _re
+                        sub = lambda x: _re.sub(r"([A-Za-z_][A-Za-z0-9_./\-]*)\{([A-Za-z_][A-Za-z0-9_./\-]*)\}", r"\1<\2>", x)
+                        if sorted((k, sub(o), sub(n), l, c) for k, o, n, l, c in want) == got and want != got:
+                            fids.append(PFX + "lenient-write-curly-prepass")
                     case = {"text": t, "surface": name, "expected": want, "reported": got, "doc": d}
                     for fid in (fids or [None]):
                         ctx.property_failure(case, f"{name}: receipts differ from the rewrites in the input", finding=fid)
